@@ -159,6 +159,7 @@ func negDivSeen(x asm.Expr, val func(name string) *big.Int) (v *big.Int, seen bo
 }
 
 func runC07(c *Ctx) {
+	runPinned(c, "C07")
 	n := int64(30000)
 	if c.Thorough() {
 		n = 1500000
